@@ -725,7 +725,7 @@ def kmedoids_job(N, k, entry='pam', sweeps=1, warm=None, proposals=False, tri=Fa
             cpre = None
             if pre is not None:
                 cpre = ([int(ev(model, v)) for v in pre[0]], np.array([int(ev(model, v)) for v in pre[1]]),
-                        np.array([float(ev(model, v)) * sc for v in pre[2]], dtype=float))
+                        np.array([float(Fraction(ev(model, v)) * sc) for v in pre[2]], dtype=float))      # exact product, then ONE rounding
                 inputs['pre_state'] = {'centers': cpre[0], 'labels': cpre[1].tolist(),
                                        'distances': [float(ev(model, v)) for v in pre[2]]}
             cprops = [int(ev(model, v)) for v in prp] if prp else None
